@@ -1,7 +1,7 @@
 """
 C03 — decode/encode round trip: quantisation bound, range refusal, canonical fixpoint.
 
-Theorems: lean/BufrModel/Props/C03.lean (round half even is within half a unit and characterised;
+Theorems: lean/BufrModel/Props/C03.lean, C03Fields.lean, C03Walk.lean (round half even is within half a unit and characterised;
 quantisation bound; on-grid values re-quantise exactly; out-of-range is refused — never wrapped, never
 clipped —, in-range is accepted; all-ones reads back missing; missing round trip; element round trips
 and fixpoints for numeric, code/flag, character and new-reference-value fields, with the two documented
@@ -11,8 +11,12 @@ Tie (implementation vs model, same inputs — the model gets the EXACT decimal e
       203YYY new reference value} x probe value {min, min-eps, just below min-1/2, min-1, max, max+eps,
       the all-ones pattern (+eps), just below 2^w, 2^w, multiples of 2^w (wrap probes), exact ties
       (dyadic, so that IEEE arithmetic sees them), off-grid, on-grid, missing} x layout {uncompressed;
-      compressed 2-3 subsets: all equal / next to in-range values / next to missing}; plus code/flag and
-      character probes.  Compared: refusal vs acceptance (error family), data bits, read-back values.
+      compressed 2-3 subsets: all equal / next to in-range values / next to missing / both}; plus code/flag and
+      character probes, the special packed integers 2^k - 1 / 2^k around the Table B and the effective width under every
+      width modifier, and the families of harness/c03fields.py (203YYY new reference values at their own boundary,
+      replication factors, 204YYY / 206YYY fields, bit-map bits, 205YYY strings, code/flag under 201/202/207).  Every value
+      position of a case has a column specification; the oracle and the comparison look at all of them.
+      Compared: refusal vs acceptance (error family), data bits, read-back values.
   (b) whole-message fixpoint on the corpus: b1 = E(render(D(b))), E(render(D(b1))) == b1 byte for byte;
       the model re-encodes its own decode of b and must give the data bits of b1.
   (c) every message the Encoder produces from generated values (shared pipeline): E(render(D(b))) == b;
@@ -48,8 +52,13 @@ META = dict(
          'subtracted is refused (never wrapped, never clipped) and one inside is written as it is; the all-ones pattern reads back as '
          'missing; missing round-trips for w > 1; numeric, code/flag, character and new-reference fields: encode-then-decode gives the '
          'quantised value / padded string, decode-then-encode reproduces the bits (exceptions proved as such: 1-bit fields, minus-zero '
-         'reference). Correspondence: element sweep over the numeric Table B elements x modifiers x boundary / tie / off-grid probes, '
-         'uncompressed and compressed, implementation vs model (exact decimal of each double) on refusal, bits and read-back; '
+         'reference); the sign-and-magnitude new reference value of 203YYY is accepted iff its magnitude fits YYY-1 bits (uncompressed and compressed) and reads '
+         'back unchanged; for any coder the walk hands the numeric primitive the effective width only, a packed integer below the all-ones pattern of THAT width '
+         '(e.g. all ones on the Table B width under a widening 201/207) is written as it is and read back as the number, uncompressed and in compressed columns of any '
+         'legal increment width. Correspondence: element sweep over the numeric Table B elements x modifiers x boundary / tie / off-grid / special-integer (2^k-1, 2^k around the '
+         'Table B and the effective width) probes and over every other kind of value the encoder writes (new reference values, replication factors, associated and skipped '
+         'fields, bit-map bits, 205/208 strings, code/flag under operators), uncompressed and compressed (all equal / differing / with a missing entry), every value position '
+         'checked, implementation vs model (exact decimal of each double) on refusal, bits and read-back; '
          'whole-message fixpoints E(D(E(D(b)))) = E(D(b)) on the corpus and E(D(b)) = b on generated messages, model re-encode tied to '
          'the implementation bytes; oracle evaluated on the implementation alone with exact rationals.',
     technique='Lean 4 theorems (integer arithmetic, omega/ring-free case analysis over the primitives) + checked model/implementation correspondence + exact-rational oracle',
